@@ -156,7 +156,9 @@ fn subtree_root_from_aunts(index: usize, total: usize, leaf: Hash, aunts: &[Hash
         leaf
     } else {
         let mut hasher = Sha256::default();
-        let subtrees_split = total.next_power_of_two() / 2;
+        // largest power of two smaller than `total`; unlike `next_power_of_two() / 2`
+        // this cannot overflow for `total > usize::MAX / 2`
+        let subtrees_split = 1usize << (total - 1).ilog2();
 
         // take next subtree root's sibling
         let (sibling, aunts) = aunts
